@@ -120,7 +120,7 @@ def _host_step(nready, nbusy, maxc, action, reuse, force, closed0, cancel_at):
         return True
 
 
-def _host_wake(maxc, nwait, reuse, cancel_first, cancel_second):
+def _host_wake(maxc, nwait, reuse, cancel_first, cancel_second, steal=False):
     """Full pool, `nwait` blocked acquirers; one release must hand a connection to exactly one of them at once
     (or, if not reusable, let one create a new connection); a waiter cancelled while blocked must not take the lock with it."""
     with aio.with_step_loop() as loop:
@@ -148,6 +148,16 @@ def _host_wake(maxc, nwait, reuse, cancel_first, cancel_second):
             return False
         loop.run_ready()
         got = []
+        if steal:
+            # another client asks right after the release, before the woken waiter has run again
+            kind, val = aio.drive(pool.acquire(), 0, loop)
+            if kind == 'ret':
+                hit('stolen')
+                got.append(val)
+            elif kind != 'blocked':
+                return False
+            if pool._lock.locked() or not _inv(pool, maxc):
+                return False
         for i, co in enumerate(waiters):
             if i in cancelled:
                 continue
@@ -173,10 +183,10 @@ def _host_wake(maxc, nwait, reuse, cancel_first, cancel_second):
         if not _inv(pool, maxc) or pool._lock.locked():
             return False
         live = nwait - len(cancelled) - (1 if cancel_second and nwait >= 2 and 1 not in cancelled else 0)
-        if live >= 1:
+        if live >= 1 or steal:
             hit('woken')
             if len(got) < 1:
-                return False            # a connection slot is free but no waiter obtained it
+                return False            # a connection slot is free but nobody obtained it
         for c in got:
             if c not in pool.busy or c in bl[1:]:
                 return False
@@ -224,6 +234,15 @@ def _cpool_step(maxhost, n_a, cancel_at, do_release, do_clean):
                 return False
             if cp._host_pool_waiters[key] != len(blocked):
                 return False                   # the count must equal the number of clients between lookup and acquisition
+            # clients queued on a full host must not hold up anybody else: an idle host is served at once
+            kind, other = aio.drive(cp.acquire('b.example', 80), 0, loop)
+            if kind != 'ret':
+                return False
+            hit('other-host-served')
+            kind, val = aio.drive(cp.release(other), 0, loop)
+            if kind != 'ret':
+                return False
+            loop.run_ready()
             if not do_release:
                 return True
             for c in held:
@@ -481,15 +500,15 @@ HARNESSES = [
       funcs=['wpull/network/pool.py:HostPool.acquire', 'wpull/network/pool.py:HostPool.release', 'wpull/network/pool.py:HostPool.clean'],
       doc='inductive step: from every invariant-satisfying state, one acquire/release/clean (with cancellation at any suspension) keeps the '
           'invariant, never hands out a busy connection, never exceeds the limit, mutates only under the lock and leaves the lock free'),
-    H('host_wake', '_host_wake', 'maxc: int, nwait: int, reuse: bool, cancel_first: bool, cancel_second: bool',
+    H('host_wake', '_host_wake', 'maxc: int, nwait: int, reuse: bool, cancel_first: bool, cancel_second: bool, steal: bool',
       pre=['1 <= maxc <= 2 and 1 <= nwait <= 3'], timeout={'quick': 120, 'thorough': 300},
-      samples=[(1, 1, True, False, False), (2, 2, False, False, False), (1, 2, True, True, False)], need=['woken', 'waiter-cancelled'],
+      samples=[(1, 1, True, False, False, False), (2, 2, False, False, False, False), (1, 2, True, True, False, False), (1, 1, True, False, False, True)], need=['woken', 'waiter-cancelled', 'stolen'],
       funcs=['wpull/network/pool.py:HostPool.acquire', 'wpull/network/pool.py:HostPool.release'],
       doc='with the pool full and 1..3 blocked acquirers, one release immediately gives exactly one live waiter a connection; a waiter '
-          'cancelled while blocked leaves the lock free and does not absorb the wake-up of the others'),
+          'cancelled while blocked leaves the lock free and does not absorb the wake-up of the others; if another client takes the freed slot first, the woken waiter re-checks and the limit still holds'),
     H('cpool_step', '_cpool_step', 'maxhost: int, n_a: int, cancel_at: int, do_release: bool, do_clean: bool',
       pre=['1 <= maxhost <= 2 and 0 <= n_a <= 4 and 0 <= cancel_at <= 3'], timeout={'quick': 150, 'thorough': 400},
-      samples=[(1, 2, 0, True, True), (2, 3, 0, True, True), (1, 1, 0, False, False)], need=['cleaned', 'cancelled'],
+      samples=[(1, 2, 0, True, True), (2, 3, 0, True, True), (1, 1, 0, False, False)], need=['cleaned', 'cancelled', 'other-host-served'],
       funcs=['wpull/network/pool.py:ConnectionPool.acquire', 'wpull/network/pool.py:ConnectionPool.release',
              'wpull/network/pool.py:ConnectionPool.clean'],
       doc='ConnectionPool: the waiter count of a host key equals the number of clients between lookup and acquisition (also after a '
